@@ -256,7 +256,9 @@ def history_cases(draw):
     ops = []
     for _ in range(draw(st.integers(2, 8))):
         if draw(st.integers(0, 3)) == 0:
-            ops.append({"op": "switch", "theta": draw(st.integers(0, 1)), "how": draw(st.sampled_from(["fresh", "shared"]))})
+            # ("reused-after": the caller goes on using the array it passed - e.g. fills it with the next vector to try - while the
+            # regressor keeps answering for the vector it was given)
+            ops.append({"op": "switch", "theta": draw(st.integers(0, 1)), "how": draw(st.sampled_from(["fresh", "shared", "reused-after"]))})
         else:
             ops.append({"op": draw(st.sampled_from(["call", "posterior", "mean"])), "set": draw(st.integers(0, len(sets) - 1)),
                         "how": draw(st.sampled_from(["fresh", "shared", "shared"]))})
@@ -311,6 +313,9 @@ def body_history(case, ctx):
                     gp.set_hyperparameters(arg)
                 except np.linalg.LinAlgError:
                     raise Inconclusive("Cholesky failed")
+                if op["how"] == "reused-after":
+                    arg += 1.5
+                    ctx.event("caller changed its hyper-parameter array after handing it over")
                 switched += held != op["theta"]
                 held = op["theta"]
                 continue
